@@ -239,19 +239,30 @@ def continue_with(ctx):
   if outer is None:
     return
   run = outer.nested.get('run') or (list(outer.nested.values())[0] if outer.nested else None)
+  cwname, fnname = cw, f.params[1]
   if run is None:
-    ctx.ob('C17.R4', outer, 'continuation body', False, 'run() helper not found', why)
-    return
+    # the continuation body may live in a method: cw_ar._RunContinuation(fn, _ar)
+    cands = [c for c in ast.walk(outer.node) if isinstance(c, ast.Call) and isinstance(c.func, ast.Attribute) and U(c.func.value) == cw]
+    tgt = None
+    for c in cands:
+      m = f.cls.methods.get(c.func.attr) if f.cls is not None else None
+      if m is not None and len(c.args) >= 1 and U(c.args[0]) == f.params[1]:
+        tgt = (m, c)
+    if tgt is None:
+      ctx.ob('C17.R4', outer, 'continuation body', False, 'run() helper not found', why)
+      return
+    run = tgt[0]
+    cwname, fnname = 'self', run.params[1]
 
   def mr(call, armed):
-    if isinstance(call.func, ast.Name) and call.func.id == f.params[1]:
+    if isinstance(call.func, ast.Name) and call.func.id == fnname:
       return ['Exception']
     return []
   n = 0
   for ev, ex in enum_paths(ctx, run, mr):
-    sets = [c for c in calls(ev, 'set') if U(c.func.value) == cw]
-    excs = [c for c in calls(ev, 'set_exception') if U(c.func.value) == cw]
-    fn_calls = [e for e in ev if e.kind == 'call' and isinstance(e.node.func, ast.Name) and e.node.func.id == f.params[1]]
+    sets = [c for c in calls(ev, 'set') if U(c.func.value) == cwname]
+    excs = [c for c in calls(ev, 'set_exception') if U(c.func.value) == cwname]
+    fn_calls = [e for e in ev if e.kind == 'call' and isinstance(e.node.func, ast.Name) and e.node.func.id == fnname]
     n += 1
     ok = len(sets) + len(excs) == 1 and len(fn_calls) == 1 and ex[0] == 'ret'
     if ok and fn_calls[0].info:      # fn raised
@@ -263,8 +274,8 @@ def continue_with(ctx):
   ctx.floor('C17.R4', 'continuation paths', n, 2)
   # outer: run() on hub or spawned, exactly once
   for ev, ex in enum_paths(ctx, outer):
-    direct = [e for e in ev if e.kind == 'call' and isinstance(e.node.func, ast.Name) and e.node.func.id == run.name]
-    spawned = [e for e in ev if e.kind == 'call' and call_name(e.node) == 'gevent.spawn' and e.node.args and U(e.node.args[0]) == run.name]
+    direct = [e for e in ev if e.kind == 'call' and ((isinstance(e.node.func, ast.Name) and e.node.func.id == run.name) or (isinstance(e.node.func, ast.Attribute) and e.node.func.attr == run.name and U(e.node.func.value) == cw))]
+    spawned = [e for e in ev if e.kind == 'call' and call_name(e.node) == 'gevent.spawn' and e.node.args and U(e.node.args[0]) in (run.name, '%s.%s' % (cw, run.name))]
     ctx.ob('C17.R4', outer, 'continuation runs exactly once per completion', len(direct) + len(spawned) == 1,
            'run() started %d times on a path' % (len(direct) + len(spawned)), why)
   # Map
@@ -307,8 +318,15 @@ def unwrap(ctx):
       ok = not sets and not excs and not rec and len(links) == 1 and U(links[0].func.value) == 'self'
       if ok:
         a = links[0].args[0]
-        ok = (isinstance(a, ast.Call) and U(a.func) in ('functools.partial', 'partial') and U(a.args[0]).endswith('_UnwrapHelper')
-              and any(k.arg == tgt or k.arg == 'target' for k in a.keywords) and all(U(k.value) == tgt for k in a.keywords))
+        if isinstance(a, ast.Call) and U(a.func) in ('functools.partial', 'partial'):
+          ok = (U(a.args[0]).endswith('_UnwrapHelper') and any(k.arg == tgt or k.arg == 'target' for k in a.keywords) and all(U(k.value) == tgt for k in a.keywords))
+        elif isinstance(a, ast.Lambda) and isinstance(a.body, ast.Call) and len(a.args.args) == 1:
+          b = a.body
+          p0 = a.args.args[0].arg
+          ok = (U(b.func).endswith('_UnwrapHelper') and ((U(b.func) == p0 + '._UnwrapHelper' and [U(x) for x in b.args] + [U(k.value) for k in b.keywords] == [tgt]) or
+                                                      ([U(x) for x in b.args][:1] == [p0] and ([U(x) for x in b.args[1:]] + [U(k.value) for k in b.keywords]) == [tgt])))
+        else:
+          ok = False
       ctx.ob('C17.R4', f, 'pending level relinks the helper with the same target', bool(ok), 'pending branch is %s' % [U(l) for l in links], why)
     elif has(fs, 'self.exception', True):
       seen.add('failed')
